@@ -14,6 +14,7 @@ import (
 	"github.com/cnotch/ipchub/provider/auth"
 	"github.com/cnotch/ipchub/service/flv"
 	"github.com/cnotch/ipchub/service/hls"
+	"github.com/cnotch/ipchub/utils"
 
 	"github.com/cnotch/apirouter"
 	"github.com/cnotch/ipchub/utils/scan"
@@ -119,6 +120,9 @@ func permissionInterceptor(w http.ResponseWriter, r *http.Request) bool {
 			streamPath = streamPath[:i]
 		}
 	}
+
+	// 按流实际解析到的路径检查：/a/x/q/.. 取到的是流 /a/x
+	streamPath = utils.CanonicalPath(streamPath)
 
 	if u == nil || !u.ValidatePermission(streamPath, auth.PullRight) {
 		http.Error(w, http.StatusText(http.StatusForbidden), http.StatusForbidden)
